@@ -125,6 +125,9 @@ func phaseA(c *core.Ctx, kind string) {
 		defer func() { c.R = r }()
 		x := newDynRandom(c, kind, false)
 		x.build(c, c.R.Range(0, 40))
+		if c.R.Chance(1, 10) && kind != "BinaryHeap" && kind != "PriorityQueue" {
+			x.PeakDrain(c, c.R.Range(1100, 2600))
+		}
 		if c.R.Chance(1, 8) {
 			c.Begin(kind, "Clear")
 			x.C.Clear()
@@ -146,15 +149,14 @@ func phaseA(c *core.Ctx, kind string) {
 		}
 		return o, w, s
 	}
-	o1, w1, s1 := fp(twin)
+	// Nothing is read before the concurrent phase, not even on the twin: a read
+	// may have process-wide first-time effects (package-level tables grown on
+	// demand). The sequential answers and the reference fingerprint are taken
+	// from the untouched twin AFTER the join.
 	catT := twin.Reads()
 	cat := d.Reads()
 	if len(cat) == 0 || len(cat) != len(catT) {
 		c.Fail("harness", "", "read catalogues of %s and its twin differ (%d vs %d)", kind, len(cat), len(catT))
-	}
-	answers := make([]any, len(catT))
-	for i := range catT {
-		answers[i] = catT[i].Do()
 	}
 	G := []int{2, 4, 8, 16, 32}[r.Intn(5)]
 	rounds := 2
@@ -168,7 +170,7 @@ func phaseA(c *core.Ctx, kind string) {
 		seeds[g] = r.U64()
 	}
 	logs := make([][]opLog, G)
-	bad := make([]int, G) // index of an op whose concurrent answer differed, or -1
+	got := make([][]any, G) // every answer, compared with the sequential one after the join
 	start := make(chan struct{})
 	t0 := time.Now()
 	var wg sync.WaitGroup
@@ -178,18 +180,16 @@ func phaseA(c *core.Ctx, kind string) {
 			defer wg.Done()
 			pr := core.NewR(seeds[g])
 			mine := make([]opLog, 0, rounds*len(cat))
-			wrong := -1
+			ans := make([]any, 0, rounds*len(cat))
 			sink := 0
 			<-start // barrier: closing the channel orders the setup before every reader, not the readers among themselves
 			for rd := 0; rd < rounds; rd++ {
 				for _, i := range pr.Perm(len(cat)) {
 					t1 := int64(time.Since(t0))
-					ok := cat[i].Eq(cat[i].Do(), answers[i])
+					a := cat[i].Do()
 					t2 := int64(time.Since(t0))
 					mine = append(mine, opLog{i, t1, t2})
-					if !ok && wrong < 0 {
-						wrong = i
-					}
+					ans = append(ans, a)
 					switch pr.Intn(4) {
 					case 0:
 						runtime.Gosched()
@@ -199,18 +199,25 @@ func phaseA(c *core.Ctx, kind string) {
 				}
 			}
 			logs[g] = mine
-			bad[g] = wrong
+			got[g] = ans
 			_ = sink
 		}(g)
 	}
 	close(start)
 	wg.Wait()
-	// verdicts (after the join)
+	// verdicts (after the join): the twin answers sequentially
+	answers := make([]any, len(catT))
+	for i := range catT {
+		answers[i] = catT[i].Do()
+	}
 	for g := 0; g < G; g++ {
-		if bad[g] >= 0 {
-			c.Fail("concurrent-answer", cat[bad[g]].Name, "%s: read-only operation %s returned a different answer when called concurrently by %d goroutines than sequentially", kind, cat[bad[g]].Name, G)
+		for j, e := range logs[g] {
+			if !cat[e.op].Eq(got[g][j], answers[e.op]) {
+				c.Fail("concurrent-answer", cat[e.op].Name, "%s: read-only operation %s returned a different answer when called concurrently by %d goroutines than the untouched twin gives sequentially", kind, cat[e.op].Name, G)
+			}
 		}
 	}
+	o1, w1, s1 := fp(twin)
 	o2, w2, s2 := fp(d)
 	if diff := o1.Diff(o2); diff != "" || !sameWalk(w1, w2) || s1 != s2 {
 		c.Fail("state-changed", "", "%s: after a phase of read-only calls the container's state differs from that of its untouched twin: %s", kind, diff)
